@@ -94,17 +94,65 @@ theorem lbOk_insert (m : Mgr) (e : String) (lb lb' : LB) (hf : m.lbs.find e = so
   · simp only [he, if_false] at hl
     exact h e' l hl
 
+theorem removeLocalEndpoint_localId (c : Cluster.State) (e : String) :
+    (c.removeLocalEndpoint e).1.localId = c.localId := by
+  unfold Cluster.State.removeLocalEndpoint
+  simp only
+  split
+  · rfl
+  · split
+    · rfl
+    · split <;> rfl
+
+theorem removeConn_localId (m : Mgr) (u : Up) : (m.removeConn u).cluster.localId = m.cluster.localId := by
+  unfold Mgr.removeConn
+  split
+  · rfl
+  · split
+    · rfl
+    · exact removeLocalEndpoint_localId _ _
+
+theorem lbOk_removeConn (m : Mgr) (u : Up) (h : LbOk m) : LbOk (m.removeConn u) := by
+  by_cases hm : u.id ∈ m.registry u.ep
+  swap
+  · rw [removeConn_absent m u hm]; exact h
+  cases hf : m.lbs.find u.ep with
+  | none => simp [registry_of_none hf] at hm
+  | some lb =>
+    have hmem : u.id ∈ lb.ups := by rwa [registry_of_find hf] at hm
+    have hc : lb.contains u.id = true := by simpa [LB.contains] using hmem
+    obtain ⟨h1, h2⟩ := lb_remove_of_mem lb u.id hmem
+    intro e lb' hf'
+    unfold Mgr.removeConn at hf'
+    simp only [hf, hc, Bool.not_true, Bool.false_eq_true, if_false] at hf'
+    by_cases hem : (lb.remove u.id).2 = true
+    · simp only [hem, if_true, AMap.find_erase] at hf'
+      by_cases he : u.ep = e
+      · simp [he] at hf'
+      · simp only [he, if_false] at hf'; exact h e lb' hf'
+    · simp only [hem, Bool.false_eq_true, if_false, AMap.find_insert] at hf'
+      by_cases he : u.ep = e
+      · simp only [he, if_true, Option.some.injEq] at hf'
+        subst hf'
+        refine ⟨?_, LB.inv_remove lb u.id (h _ _ hf).2⟩
+        rw [h1]
+        intro hnil
+        apply hem; apply h2.mpr; simp [hnil]
+      · simp only [he, if_false] at hf'; exact h e lb' hf'
+
 /-- all the ways one handler invocation can go -/
-theorem handle_spec (lib : Lib) (m : Mgr) (r : Req) :
-    (endpointOf lib r = none ∧ handle lib m r = (.reply400, m)) ∨
+theorem handle_spec (lib : Lib) (g : String → Nat → Bool) (m : Mgr) (r : Req) :
+    (endpointOf lib r = none ∧ handle lib g m r = (.reply400, m)) ∨
     (∃ e, endpointOf lib r = some e ∧
-      ((∃ lb u lb', m.lbs.find e = some lb ∧ u ∈ lb.ups ∧ lb'.ups = lb.ups ∧ (lb.Inv → lb'.Inv) ∧
-          handle lib m r = (.serve e u, { m with lbs := m.lbs.insert e lb' })) ∨
-       (∃ lb, m.lbs.find e = some lb ∧ handle lib m r = (.fault, m) ∧ ¬ (lb.ups ≠ [] ∧ lb.Inv)) ∨
+      ((∃ lb u lb', m.lbs.find e = some lb ∧ u ∈ lb.ups ∧ lb'.ups = lb.ups ∧ (lb.Inv → lb'.Inv) ∧ g e u = false ∧
+          handle lib g m r = (.serve e u, { m with lbs := m.lbs.insert e lb' })) ∨
+       (∃ lb u lb', m.lbs.find e = some lb ∧ u ∈ lb.ups ∧ lb'.ups = lb.ups ∧ (lb.Inv → lb'.Inv) ∧ g e u = true ∧
+          handle lib g m r = (.dialGone e u, ({ m with lbs := m.lbs.insert e lb' } : Mgr).removeConn { id := u, ep := e })) ∨
+       (∃ lb, m.lbs.find e = some lb ∧ handle lib g m r = (.fault, m) ∧ ¬ (lb.ups ≠ [] ∧ lb.Inv)) ∨
        (m.lbs.find e = none ∧ r.forwarded = false ∧ m.cluster.lookupCandidates e ≠ [] ∧
-          handle lib m r = (.forward e (m.cluster.lookupCandidates e) (forwardReq r), m)) ∨
+          handle lib g m r = (.forward e (m.cluster.lookupCandidates e) (forwardReq r), m)) ∨
        (m.lbs.find e = none ∧ (r.forwarded = true ∨ m.cluster.lookupCandidates e = []) ∧
-          handle lib m r = (.reply502, m)))) := by
+          handle lib g m r = (.reply502, m)))) := by
   unfold handle
   cases he : endpointOf lib r with
   | none => left; exact ⟨rfl, rfl⟩
@@ -114,12 +162,15 @@ theorem handle_spec (lib : Lib) (m : Mgr) (r : Req) :
     simp only
     rcases select_spec m e (!r.forwarded) with ⟨lb, u, lb', h1, h2, h3, h4, h5⟩ | ⟨lb, h1, h2 | h2, h3⟩ |
         ⟨h1, h2, h3, h4⟩ | ⟨h1, h2, h3⟩
-    · left; exact ⟨lb, u, lb', h1, h2, h3, h4, by rw [h5]⟩
-    · right; left; exact ⟨lb, h1, by rw [h2], h3⟩
-    · right; left; exact ⟨lb, h1, by rw [h2], h3⟩
-    · right; right; left
+    · by_cases hg : g e u = true
+      · right; left; exact ⟨lb, u, lb', h1, h2, h3, h4, hg, by rw [h5]; simp [hg]⟩
+      · have hg' : g e u = false := by simpa using hg
+        left; exact ⟨lb, u, lb', h1, h2, h3, h4, hg', by rw [h5]; simp [hg']⟩
+    · right; right; left; exact ⟨lb, h1, by rw [h2], h3⟩
+    · right; right; left; exact ⟨lb, h1, by rw [h2], h3⟩
+    · right; right; right; left
       refine ⟨h1, by simpa using h2, h3, by rw [h4]⟩
-    · right; right; right
+    · right; right; right; right
       refine ⟨h1, ?_, by rw [h3]⟩
       rcases h2 with h2 | h2
       · left; simpa using h2
@@ -149,23 +200,26 @@ theorem endpointOf_forwardReq (lib : Lib) (r : Req) :
 
 theorem routeAt_terminal (lib : Lib) (fuel : Nat) (w : World) (n : String) (r : Req) (ch : List Nat)
     (m m' : Mgr) (hn : w.nodes.find n = some m) :
-    (handle lib m r = (.reply400, m') → routeAt lib (fuel + 1) w n r ch =
+    (handle lib (w.isGone n) m r = (.reply400, m') → routeAt lib (fuel + 1) w n r ch =
         ({ visited := [n], outcome := .badRequest n }, { w with nodes := w.nodes.insert n m' })) ∧
-    (∀ e u, handle lib m r = (.serve e u, m') → routeAt lib (fuel + 1) w n r ch =
+    (∀ e u, handle lib (w.isGone n) m r = (.serve e u, m') → routeAt lib (fuel + 1) w n r ch =
         ({ visited := [n], outcome := .served n e u }, { w with nodes := w.nodes.insert n m' })) ∧
-    (handle lib m r = (.reply502, m') → routeAt lib (fuel + 1) w n r ch =
+    (handle lib (w.isGone n) m r = (.reply502, m') → routeAt lib (fuel + 1) w n r ch =
         ({ visited := [n], outcome := .noUpstream n }, { w with nodes := w.nodes.insert n m' })) ∧
-    (handle lib m r = (.fault, m') → routeAt lib (fuel + 1) w n r ch =
-        ({ visited := [n], outcome := .fault n }, { w with nodes := w.nodes.insert n m' })) := by
-  refine ⟨?_, ?_, ?_, ?_⟩
+    (handle lib (w.isGone n) m r = (.fault, m') → routeAt lib (fuel + 1) w n r ch =
+        ({ visited := [n], outcome := .fault n }, { w with nodes := w.nodes.insert n m' })) ∧
+    (∀ e u, handle lib (w.isGone n) m r = (.dialGone e u, m') → routeAt lib (fuel + 1) w n r ch =
+        ({ visited := [n], outcome := .gone n e u }, { w with nodes := w.nodes.insert n m' })) := by
+  refine ⟨?_, ?_, ?_, ?_, ?_⟩
   · intro hh; rw [routeAt, hn]; simp only [hh]
   · intro e u hh; rw [routeAt, hn]; simp only [hh]
   · intro hh; rw [routeAt, hn]; simp only [hh]
   · intro hh; rw [routeAt, hn]; simp only [hh]
+  · intro e u hh; rw [routeAt, hn]; simp only [hh]
 
 theorem routeAt_forward (lib : Lib) (fuel : Nat) (w : World) (n : String) (r : Req) (ch : List Nat)
     (m m' : Mgr) (e : String) (cands : List Cluster.Node) (r' : Req)
-    (hn : w.nodes.find n = some m) (hh : handle lib m r = (.forward e cands r', m')) :
+    (hn : w.nodes.find n = some m) (hh : handle lib (w.isGone n) m r = (.forward e cands r', m')) :
     routeAt lib (fuel + 1) w n r ch =
       match pickCand cands (ch.headD 0) with
       | none => ({ visited := [n], outcome := .fault n }, { w with nodes := w.nodes.insert n m' })
@@ -195,6 +249,36 @@ theorem pickCand_some_of_ne {cands : List Cluster.Node} (h : cands ≠ []) (i : 
   have : i % cands.length < cands.length := Nat.mod_lt _ hpos
   exact ⟨cands[i % cands.length], by simp [pickCand, List.getElem?_eq_getElem this]⟩
 
+/-- the outcome of a handler invocation that does not forward -/
+def termOutcome (n : String) : Step → Outcome
+  | .reply400 => .badRequest n
+  | .serve e u => .served n e u
+  | .dialGone e u => .gone n e u
+  | .reply502 => .noUpstream n
+  | .fault => .fault n
+  | .forward _ _ _ => .fault n
+
+theorem termOutcome_ne_outOfFuel (n : String) (st : Step) : termOutcome n st ≠ .outOfFuel := by
+  cases st <;> simp [termOutcome]
+
+/-- a handler invocation at a known node either ends the request there (`termOutcome`) or is
+the forwarding step described by `routeAt_forward` -/
+theorem routeAt_cases (lib : Lib) (fuel : Nat) (w : World) (n : String) (r : Req) (ch : List Nat)
+    (m : Mgr) (hn : w.nodes.find n = some m) :
+    (∃ st m', handle lib (w.isGone n) m r = (st, m') ∧ (∀ e c r', st ≠ .forward e c r') ∧
+        routeAt lib (fuel + 1) w n r ch =
+          ({ visited := [n], via := [], outcome := termOutcome n st }, { w with nodes := w.nodes.insert n m' })) ∨
+    (∃ e, r.forwarded = false ∧ m.cluster.lookupCandidates e ≠ [] ∧ endpointOf lib r = some e ∧ m.lbs.find e = none ∧
+        handle lib (w.isGone n) m r = (.forward e (m.cluster.lookupCandidates e) (forwardReq r), m)) := by
+  rcases handle_spec lib (w.isGone n) m r with ⟨_, hh⟩ | ⟨e, he, ⟨lb, u, lb', _, _, _, _, _, hh⟩ |
+      ⟨lb, u, lb', _, _, _, _, _, hh⟩ | ⟨lb, _, hh, _⟩ | ⟨h1, h2, h3, hh⟩ | ⟨_, _, hh⟩⟩
+  · left; exact ⟨_, _, hh, by intros; simp, (routeAt_terminal lib fuel w n r ch m _ hn).1 hh⟩
+  · left; exact ⟨_, _, hh, by intros; simp, (routeAt_terminal lib fuel w n r ch m _ hn).2.1 _ _ hh⟩
+  · left; exact ⟨_, _, hh, by intros; simp, (routeAt_terminal lib fuel w n r ch m _ hn).2.2.2.2 _ _ hh⟩
+  · left; exact ⟨_, _, hh, by intros; simp, (routeAt_terminal lib fuel w n r ch m _ hn).2.2.2.1 hh⟩
+  · right; exact ⟨e, h2, h3, he, h1, hh⟩
+  · left; exact ⟨_, _, hh, by intros; simp, (routeAt_terminal lib fuel w n r ch m _ hn).2.2.1 hh⟩
+
 /-! ### hop bounds -/
 
 /-- a request that carries the marker ends at the node that receives it -/
@@ -208,28 +292,24 @@ theorem routeAt_forwarded (lib : Lib) (fuel : Nat) (w : World) (n : String) (r :
     cases hn : w.nodes.find n with
     | none => rw [routeAt, hn]; simp
     | some m =>
-      rcases handle_spec lib m r with ⟨_, hh⟩ | ⟨e, _, ⟨lb, u, lb', _, _, _, _, hh⟩ | ⟨lb, _, hh, _⟩ |
-          ⟨_, h2, _, hh⟩ | ⟨_, _, hh⟩⟩
-      · rw [(routeAt_terminal lib fuel w n r ch m _ hn).1 hh]; simp
-      · rw [(routeAt_terminal lib fuel w n r ch m _ hn).2.1 _ _ hh]; simp
-      · rw [(routeAt_terminal lib fuel w n r ch m _ hn).2.2.2 hh]; simp
+      rcases routeAt_cases lib fuel w n r ch m hn with ⟨st, m', _, _, hr⟩ | ⟨e, h2, _⟩
+      · rw [hr]
+        exact ⟨by simp, rfl, fun _ => termOutcome_ne_outOfFuel n st⟩
       · rw [hf] at h2; simp at h2
-      · rw [(routeAt_terminal lib fuel w n r ch m _ hn).2.2.1 hh]; simp
 
 theorem routeAt_hops (lib : Lib) (fuel : Nat) (w : World) (n : String) (r : Req) (ch : List Nat) :
     (routeAt lib fuel w n r ch).1.visited.length ≤ 2 ∧ (routeAt lib fuel w n r ch).1.via.length ≤ 1 ∧
-    (2 ≤ fuel → (routeAt lib fuel w n r ch).1.outcome ≠ .outOfFuel) := by
+    (2 ≤ fuel → (routeAt lib fuel w n r ch).1.outcome ≠ .outOfFuel) ∧
+    (∀ p ∈ (routeAt lib fuel w n r ch).1.via, p.1 = n) := by
   cases fuel with
   | zero => simp [routeAt]
   | succ fuel =>
     cases hn : w.nodes.find n with
     | none => rw [routeAt, hn]; simp
     | some m =>
-      rcases handle_spec lib m r with ⟨_, hh⟩ | ⟨e, _, ⟨lb, u, lb', _, _, _, _, hh⟩ | ⟨lb, _, hh, _⟩ |
-          ⟨_, h2, _, hh⟩ | ⟨_, _, hh⟩⟩
-      · rw [(routeAt_terminal lib fuel w n r ch m _ hn).1 hh]; simp
-      · rw [(routeAt_terminal lib fuel w n r ch m _ hn).2.1 _ _ hh]; simp
-      · rw [(routeAt_terminal lib fuel w n r ch m _ hn).2.2.2 hh]; simp
+      rcases routeAt_cases lib fuel w n r ch m hn with ⟨st, m', _, _, hr⟩ | ⟨e, _, _, _, _, hh⟩
+      · rw [hr]
+        exact ⟨by simp, by simp, fun _ => termOutcome_ne_outOfFuel n st, by simp⟩
       · rw [routeAt_forward lib fuel w n r ch m m e _ _ hn hh]
         cases pickCand (m.cluster.lookupCandidates e) (ch.headD 0) with
         | none => simp
@@ -241,11 +321,17 @@ theorem routeAt_hops (lib : Lib) (fuel : Nat) (w : World) (n : String) (r : Req)
             simp only
             obtain ⟨a1, a2, a3⟩ := routeAt_forwarded lib fuel { w with nodes := w.nodes.insert n m } k
               (forwardReq r) ch.tail (forwardReq_forwarded r)
-            refine ⟨?_, ?_, ?_⟩
+            refine ⟨?_, ?_, ?_, ?_⟩
             · simp only [List.length_cons]; omega
             · simp [a2]
             · intro h2; exact a3 (by omega)
-      · rw [(routeAt_terminal lib fuel w n r ch m _ hn).2.2.1 hh]; simp
+            · simp [a2]
+
+/-- only the node the request entered at ever forwards -/
+theorem routeAt_via_entry (lib : Lib) (fuel : Nat) (w : World) (n : String) (r : Req) (ch : List Nat) :
+    ∀ p ∈ (routeAt lib fuel w n r ch).1.via, p.1 = n := (routeAt_hops lib fuel w n r ch).2.2.2
+
+/-! ### registries, invariants -/
 
 /-- the upstreams registered at node `k` for endpoint `e` (`[]` for an unknown node) -/
 def World.reg (w : World) (k e : String) : List Nat := ((w.nodes.find k).map (·.registry e)).getD []
@@ -256,14 +342,29 @@ def WId (w : World) : Prop := ∀ n m, w.nodes.find n = some m → m.cluster.loc
 /-- every node's balancers satisfy the cursor invariant (true of every reachable manager) -/
 def WOk (w : World) : Prop := ∀ n m, w.nodes.find n = some m → LbOk m
 
-theorem handle_preserves (lib : Lib) (m : Mgr) (r : Req) :
-    (handle lib m r).2.cluster = m.cluster ∧ (∀ e', (handle lib m r).2.registry e' = m.registry e') ∧
-    (LbOk m → LbOk (handle lib m r).2) := by
-  rcases handle_spec lib m r with ⟨_, hh⟩ | ⟨e, _, ⟨lb, u, lb', h1, _, h3, h4, hh⟩ | ⟨lb, _, hh, _⟩ |
-      ⟨_, _, _, hh⟩ | ⟨_, _, hh⟩⟩
+/-- no registered upstream answers `ErrGone` -/
+def NoGone (w : World) : Prop := ∀ n e u, w.isGone n e u = false
+
+/-- the registry after one handler invocation: unchanged, except that an upstream that
+answered `ErrGone` has been removed (`RemoveConn`) -/
+def stepReg (st : Step) (reg : String → List Nat) (e' : String) : List Nat :=
+  match st with
+  | .dialGone e u => if e = e' then (reg e').erase u else reg e'
+  | _ => reg e'
+
+theorem handle_preserves (lib : Lib) (g : String → Nat → Bool) (m : Mgr) (r : Req) :
+    (handle lib g m r).2.cluster.localId = m.cluster.localId ∧
+    (∀ e', (handle lib g m r).2.registry e' = stepReg (handle lib g m r).1 m.registry e') ∧
+    (LbOk m → LbOk (handle lib g m r).2) := by
+  rcases handle_spec lib g m r with ⟨_, hh⟩ | ⟨e, _, ⟨lb, u, lb', h1, _, h3, h4, _, hh⟩ |
+      ⟨lb, u, lb', h1, _, h3, h4, _, hh⟩ | ⟨lb, _, hh, _⟩ | ⟨_, _, _, hh⟩ | ⟨_, _, hh⟩⟩
   · rw [hh]; exact ⟨rfl, fun _ => rfl, id⟩
   · rw [hh]
     exact ⟨rfl, fun e' => registry_insert_sameUps m e lb lb' h1 h3 e', lbOk_insert m e lb lb' h1 h3 h4⟩
+  · rw [hh]
+    refine ⟨by rw [removeConn_localId], fun e' => ?_, fun h => lbOk_removeConn _ _ (lbOk_insert m e lb lb' h1 h3 h4 h)⟩
+    rw [registry_removeConn]
+    simp only [stepReg, registry_insert_sameUps m e lb lb' h1 h3]
   · rw [hh]; exact ⟨rfl, fun _ => rfl, id⟩
   · rw [hh]; exact ⟨rfl, fun _ => rfl, id⟩
   · rw [hh]; exact ⟨rfl, fun _ => rfl, id⟩
@@ -271,17 +372,27 @@ theorem handle_preserves (lib : Lib) (m : Mgr) (r : Req) :
 /-- the world after node `n`'s handler ran -/
 def World.set (w : World) (n : String) (m' : Mgr) : World := { w with nodes := w.nodes.insert n m' }
 
+theorem reg_set (w : World) (n : String) (m' : Mgr) (k e : String) :
+    (w.set n m').reg k e = if n = k then m'.registry e else w.reg k e := by
+  unfold World.reg World.set
+  simp only [AMap.find_insert]
+  by_cases h : n = k <;> simp [h]
+
+theorem reg_of_find {w : World} {n : String} {m : Mgr} (hn : w.nodes.find n = some m) (e : String) :
+    w.reg n e = m.registry e := by simp [World.reg, hn]
+
+theorem reg_set_same (w : World) (n : String) (m : Mgr) (hn : w.nodes.find n = some m) (k e : String) :
+    (w.set n m).reg k e = w.reg k e := by
+  rw [reg_set]
+  by_cases h : n = k
+  · subst h; simp [reg_of_find hn]
+  · simp [h]
+
 theorem set_inv (w : World) (n : String) (m m' : Mgr) (hn : w.nodes.find n = some m)
-    (hc : m'.cluster = m.cluster) (hr : ∀ e', m'.registry e' = m.registry e') (hl : LbOk m → LbOk m') :
-    (∀ k e, (w.set n m').reg k e = w.reg k e) ∧ (w.set n m').listen = w.listen ∧
+    (hc : m'.cluster.localId = m.cluster.localId) (hl : LbOk m → LbOk m') :
+    (w.set n m').listen = w.listen ∧ (w.set n m').gone = w.gone ∧
     (WId w → WId (w.set n m')) ∧ (WOk w → WOk (w.set n m')) := by
-  refine ⟨?_, rfl, ?_, ?_⟩
-  · intro k e
-    unfold World.reg World.set
-    simp only [AMap.find_insert]
-    by_cases h : n = k
-    · subst h; simp [hn, hr]
-    · simp [h]
+  refine ⟨rfl, rfl, ?_, ?_⟩
   · intro hw k mk hk
     unfold World.set at hk
     simp only [AMap.find_insert] at hk
@@ -297,54 +408,77 @@ theorem set_inv (w : World) (n : String) (m m' : Mgr) (hn : w.nodes.find n = som
       subst hk; exact hl (hw n m hn)
     · simp only [h, if_false] at hk; exact hw k mk hk
 
-theorem set_handle_inv (lib : Lib) (w : World) (n : String) (m : Mgr) (r : Req) (hn : w.nodes.find n = some m) :
-    (∀ k e, (w.set n (handle lib m r).2).reg k e = w.reg k e) ∧ (w.set n (handle lib m r).2).listen = w.listen ∧
-    (WId w → WId (w.set n (handle lib m r).2)) ∧ (WOk w → WOk (w.set n (handle lib m r).2)) := by
-  obtain ⟨a, b, c⟩ := handle_preserves lib m r
-  exact set_inv w n m _ hn a b c
+/-- the registries after a routed request: unchanged, except that an upstream that answered
+`ErrGone` when dialled has been removed from the node that dialled it -/
+def regAfter (o : Outcome) (w : World) (k e : String) : List Nat :=
+  match o with
+  | .gone k0 e0 u => if k0 = k ∧ e0 = e then (w.reg k e).erase u else w.reg k e
+  | _ => w.reg k e
 
-/-- routing never changes who is registered where, who listens where, nor the invariants -/
+theorem regAfter_term (n : String) (st : Step) (hst : ∀ e c r', st ≠ .forward e c r') (w : World) (k e' : String) :
+    regAfter (termOutcome n st) w k e' = if n = k then stepReg st (w.reg n) e' else w.reg k e' := by
+  cases st with
+  | forward e c r' => exact absurd rfl (hst e c r')
+  | dialGone e u =>
+    simp only [termOutcome, regAfter, stepReg]
+    by_cases hk : n = k
+    · subst hk
+      by_cases he : e = e' <;> simp [he]
+    · simp [hk]
+  | reply400 => simp only [termOutcome, regAfter, stepReg]; by_cases hk : n = k <;> simp [hk]
+  | serve e u => simp only [termOutcome, regAfter, stepReg]; by_cases hk : n = k <;> simp [hk]
+  | reply502 => simp only [termOutcome, regAfter, stepReg]; by_cases hk : n = k <;> simp [hk]
+  | fault => simp only [termOutcome, regAfter, stepReg]; by_cases hk : n = k <;> simp [hk]
+
+/-- routing changes the registries only by `regAfter`, never who listens where, which
+upstreams are gone, nor the invariants -/
 theorem routeAt_world (lib : Lib) : ∀ (fuel : Nat) (w : World) (n : String) (r : Req) (ch : List Nat),
-    (∀ k e, (routeAt lib fuel w n r ch).2.reg k e = w.reg k e) ∧ (routeAt lib fuel w n r ch).2.listen = w.listen ∧
+    (∀ k e, (routeAt lib fuel w n r ch).2.reg k e = regAfter (routeAt lib fuel w n r ch).1.outcome w k e) ∧
+    (routeAt lib fuel w n r ch).2.listen = w.listen ∧ (routeAt lib fuel w n r ch).2.gone = w.gone ∧
     (WId w → WId (routeAt lib fuel w n r ch).2) ∧ (WOk w → WOk (routeAt lib fuel w n r ch).2) := by
   intro fuel
   induction fuel with
-  | zero => intro w n r ch; simp [routeAt]
+  | zero => intro w n r ch; simp [routeAt, regAfter]
   | succ fuel ih =>
     intro w n r ch
     cases hn : w.nodes.find n with
-    | none => rw [routeAt, hn]; simp
+    | none => rw [routeAt, hn]; simp [regAfter]
     | some m =>
-      have hs := set_handle_inv lib w n m r hn
-      rcases handle_spec lib m r with ⟨_, hh⟩ | ⟨e, _, ⟨lb, u, lb', _, _, _, _, hh⟩ | ⟨lb, _, hh, _⟩ |
-          ⟨_, h2, _, hh⟩ | ⟨_, _, hh⟩⟩
-      · rw [(routeAt_terminal lib fuel w n r ch m _ hn).1 hh]; rw [hh] at hs; exact hs
-      · rw [(routeAt_terminal lib fuel w n r ch m _ hn).2.1 _ _ hh]; rw [hh] at hs; exact hs
-      · rw [(routeAt_terminal lib fuel w n r ch m _ hn).2.2.2 hh]; rw [hh] at hs; exact hs
-      · rw [routeAt_forward lib fuel w n r ch m m e _ _ hn hh]
-        rw [hh] at hs
+      obtain ⟨p1, p2, p3⟩ := handle_preserves lib (w.isGone n) m r
+      rcases routeAt_cases lib fuel w n r ch m hn with ⟨st, m', hh, hst, hr⟩ | ⟨e, _, _, _, _, hh⟩
+      · rw [hh] at p1 p2 p3
+        obtain ⟨s1, s2, s3, s4⟩ := set_inv w n m m' hn p1 p3
+        rw [hr]
+        refine ⟨fun k e' => ?_, s1, s2, s3, s4⟩
+        show (w.set n m').reg k e' = _
+        rw [reg_set, regAfter_term n st hst, p2 e']
+        by_cases hk : n = k
+        · simp only [hk, if_true]
+          cases st <;> simp [stepReg, reg_of_find (hk ▸ hn)]
+        · simp [hk]
+      · obtain ⟨s1, s2, s3, s4⟩ := set_inv w n m m hn rfl id
+        have hsame : ∀ k e', ({ w with nodes := w.nodes.insert n m } : World).reg k e' = w.reg k e' :=
+          fun k e' => reg_set_same w n m hn k e'
+        rw [routeAt_forward lib fuel w n r ch m m e _ _ hn hh]
         cases pickCand (m.cluster.lookupCandidates e) (ch.headD 0) with
-        | none => exact hs
+        | none => exact ⟨fun k e' => by simpa [regAfter] using hsame k e', s1, s2, s3, s4⟩
         | some c =>
           simp only
           cases w.listen.find c.proxyAddr with
-          | none => exact hs
+          | none => exact ⟨fun k e' => by simpa [regAfter] using hsame k e', s1, s2, s3, s4⟩
           | some k =>
             simp only
-            obtain ⟨i1, i2, i3, i4⟩ := ih (w.set n m) k (forwardReq r) ch.tail
-            obtain ⟨s1, s2, s3, s4⟩ := hs
-            refine ⟨fun k' e' => ?_, ?_, fun h => i3 (s3 h), fun h => i4 (s4 h)⟩
-            · exact (i1 k' e').trans (s1 k' e')
-            · exact i2.trans s2
-      · rw [(routeAt_terminal lib fuel w n r ch m _ hn).2.2.1 hh]; rw [hh] at hs; exact hs
-
-theorem reg_of_find {w : World} {n : String} {m : Mgr} (hn : w.nodes.find n = some m) (e : String) :
-    w.reg n e = m.registry e := by simp [World.reg, hn]
+            obtain ⟨i1, i2, i3, i4, i5⟩ := ih { w with nodes := w.nodes.insert n m } k (forwardReq r) ch.tail
+            refine ⟨fun k' e' => ?_, i2.trans s1, i3.trans s2, fun h => i4 (s3 h), fun h => i5 (s4 h)⟩
+            rw [i1 k' e']
+            unfold regAfter
+            split <;> simp only [hsame]
 
 /-- whoever serves, serves the endpoint the request names, with an upstream registered for it there -/
 theorem routeAt_served (lib : Lib) : ∀ (fuel : Nat) (w : World) (n : String) (r : Req) (ch : List Nat)
     (k e : String) (u : Nat), (routeAt lib fuel w n r ch).1.outcome = .served k e u →
-    u ∈ w.reg k e ∧ endpointOf lib r = some e ∧ (routeAt lib fuel w n r ch).1.visited.getLast? = some k := by
+    u ∈ w.reg k e ∧ endpointOf lib r = some e ∧ (routeAt lib fuel w n r ch).1.visited.getLast? = some k ∧
+    w.isGone k e u = false := by
   intro fuel
   induction fuel with
   | zero => intro w n r ch k e u h; simp [routeAt] at h
@@ -353,15 +487,16 @@ theorem routeAt_served (lib : Lib) : ∀ (fuel : Nat) (w : World) (n : String) (
     cases hn : w.nodes.find n with
     | none => rw [routeAt, hn] at h; simp at h
     | some m =>
-      rcases handle_spec lib m r with ⟨_, hh⟩ | ⟨e0, he0, ⟨lb, u0, lb', h1, h2, _, _, hh⟩ | ⟨lb, _, hh, _⟩ |
-          ⟨_, _, _, hh⟩ | ⟨_, _, hh⟩⟩
+      rcases handle_spec lib (w.isGone n) m r with ⟨_, hh⟩ | ⟨e0, he0, ⟨lb, u0, lb', h1, h2, _, _, hg, hh⟩ |
+          ⟨lb, u0, lb', _, _, _, _, _, hh⟩ | ⟨lb, _, hh, _⟩ | ⟨_, _, _, hh⟩ | ⟨_, _, hh⟩⟩
       · rw [(routeAt_terminal lib fuel w n r ch m _ hn).1 hh] at h; simp at h
       · rw [(routeAt_terminal lib fuel w n r ch m _ hn).2.1 _ _ hh] at h ⊢
         simp only [Outcome.served.injEq] at h
         obtain ⟨rfl, rfl, rfl⟩ := h
-        refine ⟨?_, he0, by simp⟩
+        refine ⟨?_, he0, by simp, hg⟩
         rw [reg_of_find hn, registry_of_find h1]; exact h2
-      · rw [(routeAt_terminal lib fuel w n r ch m _ hn).2.2.2 hh] at h; simp at h
+      · rw [(routeAt_terminal lib fuel w n r ch m _ hn).2.2.2.2 _ _ hh] at h; simp at h
+      · rw [(routeAt_terminal lib fuel w n r ch m _ hn).2.2.2.1 hh] at h; simp at h
       · rw [routeAt_forward lib fuel w n r ch m m e0 _ _ hn hh] at h ⊢
         cases hp : pickCand (m.cluster.lookupCandidates e0) (ch.headD 0) with
         | none => rw [hp] at h; simp at h
@@ -371,34 +506,28 @@ theorem routeAt_served (lib : Lib) : ∀ (fuel : Nat) (w : World) (n : String) (
           | none => rw [hl] at h; simp at h
           | some k' =>
             rw [hl] at h; simp only at h ⊢
-            obtain ⟨j1, j2, j3⟩ := ih _ k' (forwardReq r) ch.tail k e u h
-            have hs := (set_handle_inv lib w n m r hn).1 k e
-            rw [hh] at hs
-            refine ⟨?_, ?_, ?_⟩
-            · rw [← hs]; exact j1
+            obtain ⟨j1, j2, j3, j4⟩ := ih _ k' (forwardReq r) ch.tail k e u h
+            refine ⟨?_, ?_, ?_, j4⟩
+            · rw [← reg_set_same w n m hn k e]; exact j1
             · rw [← endpointOf_forwardReq lib r]; exact j2
             · rw [List.getLast?_cons]
-              cases hv : (routeAt lib fuel { nodes := AMap.insert w.nodes n m, listen := w.listen } k' (forwardReq r) ch.tail).1.visited.getLast? with
+              cases hv : (routeAt lib fuel { nodes := AMap.insert w.nodes n m, listen := w.listen, gone := w.gone } k' (forwardReq r) ch.tail).1.visited.getLast? with
               | none => rw [hv] at j3; simp at j3
               | some x => rw [hv] at j3; simpa using j3
       · rw [(routeAt_terminal lib fuel w n r ch m _ hn).2.2.1 hh] at h; simp at h
 
 /-- forwarding decisions never name the forwarding node itself -/
-theorem routeAt_no_self (lib : Lib) : ∀ (fuel : Nat) (w : World) (n : String) (r : Req) (ch : List Nat),
-    WId w → ∀ p ∈ (routeAt lib fuel w n r ch).1.via, p.1 ≠ p.2 := by
-  intro fuel
-  induction fuel with
-  | zero => intro w n r ch _ p hp; simp [routeAt] at hp
-  | succ fuel ih =>
-    intro w n r ch hw p hp
+theorem routeAt_no_self (lib : Lib) (fuel : Nat) (w : World) (n : String) (r : Req) (ch : List Nat)
+    (hw : WId w) : ∀ p ∈ (routeAt lib fuel w n r ch).1.via, p.1 ≠ p.2 := by
+  intro p hp
+  cases fuel with
+  | zero => simp [routeAt] at hp
+  | succ fuel =>
     cases hn : w.nodes.find n with
     | none => rw [routeAt, hn] at hp; simp at hp
     | some m =>
-      rcases handle_spec lib m r with ⟨_, hh⟩ | ⟨e0, he0, ⟨lb, u0, lb', h1, h2, _, _, hh⟩ | ⟨lb, _, hh, _⟩ |
-          ⟨_, _, _, hh⟩ | ⟨_, _, hh⟩⟩
-      · rw [(routeAt_terminal lib fuel w n r ch m _ hn).1 hh] at hp; simp at hp
-      · rw [(routeAt_terminal lib fuel w n r ch m _ hn).2.1 _ _ hh] at hp; simp at hp
-      · rw [(routeAt_terminal lib fuel w n r ch m _ hn).2.2.2 hh] at hp; simp at hp
+      rcases routeAt_cases lib fuel w n r ch m hn with ⟨st, m', _, _, hr⟩ | ⟨e0, _, _, _, _, hh⟩
+      · rw [hr] at hp; simp at hp
       · rw [routeAt_forward lib fuel w n r ch m m e0 _ _ hn hh] at hp
         cases hpc : pickCand (m.cluster.lookupCandidates e0) (ch.headD 0) with
         | none => rw [hpc] at hp; simp at hp
@@ -418,23 +547,27 @@ theorem routeAt_no_self (lib : Lib) : ∀ (fuel : Nat) (w : World) (n : String) 
             rw [hl] at hp; simp only [List.mem_cons] at hp
             rcases hp with hp | hp
             · subst hp; exact hne
-            · have hs := (set_handle_inv lib w n m r hn).2.2.1 hw
-              rw [hh] at hs
-              exact ih _ k' (forwardReq r) ch.tail hs p hp
-      · rw [(routeAt_terminal lib fuel w n r ch m _ hn).2.2.1 hh] at hp; simp at hp
+            · have := (routeAt_forwarded lib fuel { w with nodes := w.nodes.insert n m } k' (forwardReq r) ch.tail
+                (forwardReq_forwarded r)).2.1
+              rw [this] at hp; simp at hp
 
-/-- a node with a local upstream for the endpoint serves the request itself -/
+/-- a node with a local upstream for the endpoint handles the request itself: it delivers it to
+one of them, or - when the one selected answers `ErrGone` - removes it and answers 502 -/
 theorem routeAt_local (lib : Lib) (fuel : Nat) (w : World) (n : String) (r : Req) (ch : List Nat)
     (m : Mgr) (e : String) (hn : w.nodes.find n = some m) (hok : LbOk m)
     (he : endpointOf lib r = some e) (hreg : m.registry e ≠ []) :
     ∃ u, u ∈ m.registry e ∧
-      (routeAt lib (fuel + 1) w n r ch).1 = { visited := [n], via := [], outcome := .served n e u } := by
-  rcases handle_spec lib m r with ⟨h0, _⟩ | ⟨e0, he0, ⟨lb, u0, lb', h1, h2, _, _, hh⟩ | ⟨lb, h1, _, h3⟩ |
-      ⟨h1, _, _, _⟩ | ⟨h1, _, _⟩⟩
+      (routeAt lib (fuel + 1) w n r ch).1 =
+        { visited := [n], via := [], outcome := if w.isGone n e u then .gone n e u else .served n e u } := by
+  rcases handle_spec lib (w.isGone n) m r with ⟨h0, _⟩ | ⟨e0, he0, ⟨lb, u0, lb', h1, h2, _, _, hg, hh⟩ |
+      ⟨lb, u0, lb', h1, h2, _, _, hg, hh⟩ | ⟨lb, h1, _, h3⟩ | ⟨h1, _, _, _⟩ | ⟨h1, _, _⟩⟩
   · rw [he] at h0; simp at h0
   · rw [he] at he0; simp only [Option.some.injEq] at he0; subst he0
     refine ⟨u0, by rw [registry_of_find h1]; exact h2, ?_⟩
-    rw [(routeAt_terminal lib fuel w n r ch m _ hn).2.1 _ _ hh]
+    rw [(routeAt_terminal lib fuel w n r ch m _ hn).2.1 _ _ hh, hg]; rfl
+  · rw [he] at he0; simp only [Option.some.injEq] at he0; subst he0
+    refine ⟨u0, by rw [registry_of_find h1]; exact h2, ?_⟩
+    rw [(routeAt_terminal lib fuel w n r ch m _ hn).2.2.2.2 _ _ hh, hg]; rfl
   · exact absurd (hok e0 lb h1) h3
   · rw [he] at he0; simp only [Option.some.injEq] at he0; subst he0
     exact absurd (registry_of_none h1) hreg
@@ -461,7 +594,7 @@ theorem mem_lookupCandidates {s : Cluster.State} {e : String} {c : Cluster.Node}
   · rintro ⟨a, ⟨b, c'⟩, d⟩; exact ⟨a, b, c', d⟩
   · rintro ⟨a, b, c', d⟩; exact ⟨a, ⟨b, c'⟩, d⟩
 
-theorem route_settled (lib : Lib) (w : World) (hs : Settled w) (fuel : Nat) (n : String) (m : Mgr)
+theorem route_settled (lib : Lib) (w : World) (hs : Settled w) (hng : NoGone w) (fuel : Nat) (n : String) (m : Mgr)
     (hn : w.nodes.find n = some m) (r : Req) (hnf : r.forwarded = false) (e : String)
     (he : endpointOf lib r = some e) (ch : List Nat) :
     ((∃ k, w.reg k e ≠ []) → ∃ k u, (routeAt lib (fuel + 2) w n r ch).1.outcome = .served k e u ∧ u ∈ w.reg k e) ∧
@@ -470,11 +603,15 @@ theorem route_settled (lib : Lib) (w : World) (hs : Settled w) (fuel : Nat) (n :
   by_cases hreg : m.registry e = []
   swap
   · obtain ⟨u, hu, hr⟩ := routeAt_local lib (fuel + 1) w n r ch m e hn (hs.ok n m hn) he hreg
-    refine ⟨fun _ => ⟨n, u, by rw [hr], by rw [reg_of_find hn]; exact hu⟩, fun h => ?_⟩
+    rw [hng n e u] at hr
+    refine ⟨fun _ => ⟨n, u, by rw [hr]; rfl, by rw [reg_of_find hn]; exact hu⟩, fun h => ?_⟩
     have := h n; rw [reg_of_find hn] at this; exact absurd this hreg
-  rcases handle_spec lib m r with ⟨h0, _⟩ | ⟨e0, he0, ⟨lb, u0, lb', h1, h2, _, _, hh⟩ | ⟨lb, h1, _, h3⟩ |
-      ⟨h1, _, hc, hh⟩ | ⟨h1, h2, hh⟩⟩
+  rcases handle_spec lib (w.isGone n) m r with ⟨h0, _⟩ | ⟨e0, he0, ⟨lb, u0, lb', h1, h2, _, _, _, hh⟩ |
+      ⟨lb, u0, lb', h1, h2, _, _, _, hh⟩ | ⟨lb, h1, _, h3⟩ | ⟨h1, _, hc, hh⟩ | ⟨h1, h2, hh⟩⟩
   · rw [he] at h0; simp at h0
+  · rw [he] at he0; simp only [Option.some.injEq] at he0; subst he0
+    rw [registry_of_find h1] at hreg
+    exact absurd hreg (hs.ok n m hn e lb h1).1
   · rw [he] at he0; simp only [Option.some.injEq] at he0; subst he0
     rw [registry_of_find h1] at hreg
     exact absurd hreg (hs.ok n m hn e lb h1).1
@@ -493,7 +630,9 @@ theorem route_settled (lib : Lib) (w : World) (hs : Settled w) (fuel : Nat) (n :
       simp [this, hk]
     obtain ⟨u, hu, hr⟩ := routeAt_local lib fuel { w with nodes := w.nodes.insert n m } c.id (forwardReq r)
       ch.tail mk e hk' (hs.ok c.id mk hk) (by rw [endpointOf_forwardReq]; exact he) hkreg
-    refine ⟨fun _ => ⟨c.id, u, by rw [hr], by rw [reg_of_find hk]; exact hu⟩, fun h => ?_⟩
+    have hg : ({ w with nodes := w.nodes.insert n m } : World).isGone c.id e u = false := hng c.id e u
+    rw [hg] at hr
+    refine ⟨fun _ => ⟨c.id, u, by rw [hr]; rfl, by rw [reg_of_find hk]; exact hu⟩, fun h => ?_⟩
     have := h c.id; rw [reg_of_find hk] at this; exact absurd this hkreg
   · rw [he] at he0; simp only [Option.some.injEq] at he0; subst he0
     have hc : m.cluster.lookupCandidates e = [] := by
@@ -522,52 +661,26 @@ theorem route_settled (lib : Lib) (w : World) (hs : Settled w) (fuel : Nat) (n :
 theorem routeAt_badRequest (lib : Lib) (fuel : Nat) (w : World) (n : String) (m : Mgr) (r : Req)
     (ch : List Nat) (hn : w.nodes.find n = some m) (he : endpointOf lib r = none) :
     (routeAt lib (fuel + 1) w n r ch).1 = { visited := [n], via := [], outcome := .badRequest n } := by
-  rcases handle_spec lib m r with ⟨_, hh⟩ | ⟨e0, he0, _⟩
+  rcases handle_spec lib (w.isGone n) m r with ⟨_, hh⟩ | ⟨e0, he0, _⟩
   · rw [(routeAt_terminal lib fuel w n r ch m _ hn).1 hh]
   · rw [he] at he0; simp at he0
 
 /-- one handler invocation on a request that carries the marker -/
-theorem handle_forwarded (lib : Lib) (m : Mgr) (r : Req) (hf : r.forwarded = true) :
-    (endpointOf lib r = none ∧ (handle lib m r).1 = .reply400) ∨
+theorem handle_forwarded (lib : Lib) (g : String → Nat → Bool) (m : Mgr) (r : Req) (hf : r.forwarded = true) :
+    (endpointOf lib r = none ∧ (handle lib g m r).1 = .reply400) ∨
     (∃ e, endpointOf lib r = some e ∧
-      ((∃ u, u ∈ m.registry e ∧ (handle lib m r).1 = .serve e u) ∨
-       (m.registry e = [] ∧ (handle lib m r).1 = .reply502) ∨
-       (¬ LbOk m ∧ (handle lib m r).1 = .fault))) := by
-  rcases handle_spec lib m r with ⟨h0, hh⟩ | ⟨e0, he0, ⟨lb, u0, lb', h1, h2, _, _, hh⟩ | ⟨lb, h1, hh, h3⟩ |
-      ⟨_, h2, _, _⟩ | ⟨h1, _, hh⟩⟩
+      ((∃ u, u ∈ m.registry e ∧ g e u = false ∧ (handle lib g m r).1 = .serve e u) ∨
+       (∃ u, u ∈ m.registry e ∧ g e u = true ∧ (handle lib g m r).1 = .dialGone e u) ∨
+       (m.registry e = [] ∧ (handle lib g m r).1 = .reply502) ∨
+       (¬ LbOk m ∧ (handle lib g m r).1 = .fault))) := by
+  rcases handle_spec lib g m r with ⟨h0, hh⟩ | ⟨e0, he0, ⟨lb, u0, lb', h1, h2, _, _, hg, hh⟩ |
+      ⟨lb, u0, lb', h1, h2, _, _, hg, hh⟩ | ⟨lb, h1, hh, h3⟩ | ⟨_, h2, _, _⟩ | ⟨h1, _, hh⟩⟩
   · left; exact ⟨h0, by rw [hh]⟩
-  · right; exact ⟨e0, he0, Or.inl ⟨u0, by rw [registry_of_find h1]; exact h2, by rw [hh]⟩⟩
-  · right; exact ⟨e0, he0, Or.inr (Or.inr ⟨fun h => h3 (h e0 lb h1), by rw [hh]⟩)⟩
+  · right; exact ⟨e0, he0, Or.inl ⟨u0, by rw [registry_of_find h1]; exact h2, hg, by rw [hh]⟩⟩
+  · right; exact ⟨e0, he0, Or.inr (Or.inl ⟨u0, by rw [registry_of_find h1]; exact h2, hg, by rw [hh]⟩)⟩
+  · right; exact ⟨e0, he0, Or.inr (Or.inr (Or.inr ⟨fun h => h3 (h e0 lb h1), by rw [hh]⟩))⟩
   · rw [hf] at h2; simp at h2
-  · right; exact ⟨e0, he0, Or.inr (Or.inl ⟨registry_of_none h1, by rw [hh]⟩)⟩
-
-/-- only the node the request entered at ever forwards -/
-theorem routeAt_via_entry (lib : Lib) (fuel : Nat) (w : World) (n : String) (r : Req) (ch : List Nat) :
-    ∀ p ∈ (routeAt lib fuel w n r ch).1.via, p.1 = n := by
-  cases fuel with
-  | zero => simp [routeAt]
-  | succ fuel =>
-    cases hn : w.nodes.find n with
-    | none => rw [routeAt, hn]; simp
-    | some m =>
-      rcases handle_spec lib m r with ⟨_, hh⟩ | ⟨e, _, ⟨lb, u, lb', _, _, _, _, hh⟩ | ⟨lb, _, hh, _⟩ |
-          ⟨_, h2, _, hh⟩ | ⟨_, _, hh⟩⟩
-      · rw [(routeAt_terminal lib fuel w n r ch m _ hn).1 hh]; simp
-      · rw [(routeAt_terminal lib fuel w n r ch m _ hn).2.1 _ _ hh]; simp
-      · rw [(routeAt_terminal lib fuel w n r ch m _ hn).2.2.2 hh]; simp
-      · rw [routeAt_forward lib fuel w n r ch m m e _ _ hn hh]
-        cases pickCand (m.cluster.lookupCandidates e) (ch.headD 0) with
-        | none => simp
-        | some c =>
-          simp only
-          cases w.listen.find c.proxyAddr with
-          | none => simp
-          | some k =>
-            simp only
-            obtain ⟨_, a2, _⟩ := routeAt_forwarded lib fuel { w with nodes := w.nodes.insert n m } k
-              (forwardReq r) ch.tail (forwardReq_forwarded r)
-            simp [a2]
-      · rw [(routeAt_terminal lib fuel w n r ch m _ hn).2.2.1 hh]; simp
+  · right; exact ⟨e0, he0, Or.inr (Or.inr (Or.inl ⟨registry_of_none h1, by rw [hh]⟩))⟩
 
 /-- every manager state reachable from a fresh node by AddConn/RemoveConn/Select, paired with
 ANY routing view, satisfies the balancer invariant the routing theorems assume -/
